@@ -259,7 +259,7 @@ pub fn directed(lang: u8) -> Vec<Input> {
         _ => other::sparql_directed(&mut v),
     }
     for i in v.iter_mut() {
-        if i.fam != "explosive" && i.fam != "varlen-acyclic" && explosive_text(lang, &i.text) {
+        if i.fam != "explosive" && i.fam != "varlen-acyclic" && i.fam != "varlen-sparse-cycle" && explosive_text(lang, &i.text) {
             i.fx = 0;
             i.cons = "varlen-unbounded".into();
         }
